@@ -28,7 +28,7 @@ Rst == \E i \in 0..(Len(chain) + 1) :
                             ELSE Restart /\ Lbl([op |-> "Restart"])
 
 (* TLC's simulator picks a disjunct uniformly: repeating a disjunct weights it *)
-MCNext == Upd \/ Upd \/ Upd \/ Upd \/ Upd \/ Cmt \/ Rec \/ Rec \/ Rst
+MCNext == Upd \/ Upd \/ Upd \/ Upd \/ Upd \/ Upd \/ Cmt \/ Rec \/ Rec \/ Rec \/ Rst
 
 MCSpec == MCInit /\ [][MCNext]_<<vars, acts>>
 
